@@ -31,6 +31,8 @@ QCount == {Q(0, 0, FALSE, "n"), Q(1, 1, FALSE, "n"), Q(2, 2, FALSE, "n"), Q(0, 1
            Q(2, -1, FALSE, "n"), Q(0, 2, FALSE, "n")}
 QCountL == {Q(1, 2, TRUE, "n"), Q(2, -1, TRUE, "n"), Q(0, 2, TRUE, "n"), Q(2, 2, TRUE, "n")}
 QAll == QBasic \cup QLazy \cup QCount \cup QCountL
+QBasicLazy == QBasic \cup QLazy
+QSmall == {QStar, QPlus, QOpt, QStarL, QPlusL, Q(2, 2, FALSE, "n"), Q(1, 2, FALSE, "n")}
 AllFlags == {Fl(i, m, s) : i \in BOOLEAN, m \in BOOLEAN, s \in BOOLEAN}
 OnlyNoFlags == {NoFlags}
 FlagsMS == {Fl(FALSE, m, s) : m \in BOOLEAN, s \in BOOLEAN}
